@@ -32,10 +32,11 @@ MIN_NONTRIVIAL = {"quick": 200, "thorough": 2000}
 WALL_BUDGET = {"quick": 200, "thorough": 2400}
 KF = "epr-keep-corrections:applied-to-virtual-qubit-0"
 KF_RSP_NV = "epr-recv-rsp:nv-multi-pair-target-preallocated"
+KF_RSP_RETRY = "epr-recv-rsp-retry:no-clean-up-between-attempts"
 
 KF_RECV_BASIS = "recv-measure:post-processing-assumes-Z-basis"
 VARIANTS = ["recv_keep", "recv_keep_post", "recv_keep_seq", "recv_keep_with_info", "recv_rsp", "recv_rsp_with_info",
-            "create_keep", "create_keep_seq", "recv_keep_retry", "recv_keep_seq_retry", "create_keep_retry"]
+            "create_keep", "create_keep_seq", "recv_keep_retry", "recv_keep_seq_retry", "create_keep_retry", "recv_rsp_retry"]
 OTHER_STATES = [np.array([math.cos(0.4), math.sin(0.4) * np.exp(0.7j)]), np.array([math.cos(1.1), math.sin(1.1) * np.exp(-1.3j)])]
 PAULI_FOR_BELL = {0: [], 1: ["x"], 2: ["x", "z"], 3: ["z"]}   # correction turning |b> into Phi+ (applied to one half)
 
@@ -115,6 +116,8 @@ def _request(es, var, n, expect, post):
         return es.recv_keep(n, expect_phi_plus=expect, min_fidelity_all_at_end=80, max_tries=3), None
     if var == "recv_keep_seq_retry":
         return es.recv_keep(n, post_routine=post, sequential=True, expect_phi_plus=expect, min_fidelity_all_at_end=80, max_tries=3), None
+    if var == "recv_rsp_retry":
+        return es.recv_rsp(n, expect_phi_plus=expect, min_fidelity_all_at_end=80, max_tries=3), None
     if var == "create_keep_retry":
         return es.create_keep(n, min_fidelity_all_at_end=80, max_tries=3), None
     if var == "create_keep":
@@ -220,7 +223,7 @@ def _keep(ctx, case):
                 if st is None or rq.fidelity(st, OTHER_STATES[j]) < 1 - 1e-9:
                     spect_bad.append(j)
             if bad or spect_bad:
-                key = KF if _matches_known_mechanism(pipe, req, qubits, spectators, bells, hw, want_corrected, sequential, var, states,
+                key = KF_RSP_RETRY if _rsp_retry_without_cleanup(pipe, var) else KF if _matches_known_mechanism(pipe, req, qubits, spectators, bells, hw, want_corrected, sequential, var, states,
                                                         first_bells=[(b + 1) % 4 for b in bells] if retry else ()) else None
                 fid = [None if s is None else round(rq.fidelity(s, rq.BELL[0]), 6) for s in states]
                 ctx.fail(case, f"{var} x{n} bells={bells} hw={hw} others={others} expect_phi_plus={expect}: pairs {bad} are not "
@@ -240,9 +243,20 @@ def _keep(ctx, case):
             # signature: every pair was delivered and none could be consumed
             if req.delivered == n and len(ex._pending_epr_responses) == n:
                 key = KF_RSP_NV
+        if _rsp_retry_without_cleanup(pipe, var):
+            key = KF_RSP_RETRY
         ctx.fail(case, f"{var} x{n} bells={bells} hw={hw} others={others}: controller run failed: {e}", key=key)
         return ctx.case(case, nontrivial)
     ctx.case(case, nontrivial)
+
+
+def _rsp_retry_without_cleanup(pipe, var):
+    """Known mechanism: the retry loop the SDK builds around recv_rsp(min_fidelity_all_at_end=..) neither undefines the result
+    array nor frees the qubits between attempts (recv_keep's loop does both): the emitted loop contains no `undef`."""
+    if var != "recv_rsp_retry":
+        return False
+    subs = pipe.conn.subroutines
+    return bool(subs) and not any(getattr(i, "mnemonic", "") == "undef" for i in subs[-1].instructions)
 
 
 class _Refused(Exception):
